@@ -1,0 +1,629 @@
+//! Deterministic-simulation hooks for the external verification harness.
+//!
+//! Compiled only with the cargo feature `verif_hooks` (off by default). Every
+//! hook is inert until the harness arms it through the thread-local controls
+//! in this module; no hook draws randomness, reads a clock or logs.
+#![allow(missing_docs)]
+
+use std::cell::{Cell, RefCell};
+use std::io::Read;
+use std::sync::atomic::Ordering;
+
+use crate::atom_table::*;
+use crate::functor_macro::*;
+use crate::types::*;
+use crate::machine::Machine;
+use crate::machine::heap::Heap;
+use crate::parser::char_reader::{BadUtf8Error, CharRead, CharReader};
+
+// ---------------------------------------------------------------------------
+// Instruction clock and interrupt injection (dispatch loops).
+// ---------------------------------------------------------------------------
+
+/// Panic payload raised when the armed tick budget is exhausted.
+#[derive(Debug, Clone, Copy)]
+pub struct TickBudgetExceeded;
+
+thread_local! {
+    static TICKS: Cell<u64> = const { Cell::new(0) };
+    static INT_AT: Cell<u64> = const { Cell::new(0) };
+    static INT_FIRED: Cell<u64> = const { Cell::new(0) };
+    static TICK_BUDGET: Cell<u64> = const { Cell::new(u64::MAX) };
+}
+
+/// Called once per dispatch-loop iteration. Returns `true` when the loop must
+/// break to its interrupt poll right now.
+#[inline(always)]
+pub fn tick() -> bool {
+    let t = TICKS.get().wrapping_add(1);
+    TICKS.set(t);
+
+    if t == INT_AT.get() {
+        INT_AT.set(0);
+        INT_FIRED.set(t);
+        crate::machine::INTERRUPT.store(true, Ordering::Relaxed);
+        return true;
+    }
+
+    if t > TICK_BUDGET.get() {
+        TICK_BUDGET.set(u64::MAX);
+        std::panic::panic_any(TickBudgetExceeded);
+    }
+
+    false
+}
+
+/// Current value of the instruction clock of this thread.
+pub fn ticks() -> u64 {
+    TICKS.get()
+}
+
+/// Reset the instruction clock of this thread to zero.
+pub fn reset_ticks() {
+    TICKS.set(0);
+    INT_FIRED.set(0);
+}
+
+/// Raise the interrupt flag when the clock reaches `n` (absolute; 0 disarms).
+pub fn interrupt_at(n: u64) {
+    INT_AT.set(n);
+}
+
+/// Tick at which the armed interrupt fired (0 = it did not fire).
+pub fn interrupt_fired_at() -> u64 {
+    INT_FIRED.get()
+}
+
+/// Panic with [`TickBudgetExceeded`] once the clock exceeds `n`.
+pub fn set_tick_budget(n: u64) {
+    TICK_BUDGET.set(n);
+}
+
+/// Clear the process-global interrupt flag (harness hygiene between runs).
+pub fn clear_global_interrupt() -> bool {
+    crate::machine::INTERRUPT.swap(false, Ordering::Relaxed)
+}
+
+// ---------------------------------------------------------------------------
+// Heap growth: policy, failure injection, guard region.
+// ---------------------------------------------------------------------------
+
+/// How a managed heap grows.
+#[derive(Debug, Clone, Copy, PartialEq, Eq)]
+pub enum GrowPolicy {
+    /// 512 KiB, then doubling (what production does).
+    Production,
+    /// `init` bytes, then doubling.
+    Small(usize),
+    /// Logical capacity grows by `step` cells per growth attempt.
+    Exact(usize),
+}
+
+/// Thread-local heap control block.
+#[derive(Debug, Clone, Copy)]
+pub struct HeapCtl {
+    /// Hooks take effect only while this is set.
+    pub active: bool,
+    pub policy: GrowPolicy,
+    /// 1-based index (counted from arming) of the first failing attempt; 0 = none.
+    pub fail_at: u64,
+    /// Number of consecutive failing attempts starting at `fail_at`.
+    pub fail_len: u64,
+    /// Bytes of canary kept past the logical capacity of managed heaps.
+    pub guard_bytes: usize,
+    /// `Heap::truncate` also shrinks the logical capacity of managed heaps.
+    pub shrink_on_truncate: bool,
+    /// Capture a backtrace at the first injected failure.
+    pub backtrace: bool,
+}
+
+impl HeapCtl {
+    pub const OFF: HeapCtl = HeapCtl {
+        active: false,
+        policy: GrowPolicy::Production,
+        fail_at: 0,
+        fail_len: 0,
+        guard_bytes: 0,
+        shrink_on_truncate: false,
+        backtrace: false,
+    };
+}
+
+/// Counters maintained by the heap hooks since the last arming.
+#[derive(Debug, Clone, Default)]
+pub struct HeapStats {
+    pub attempts: u64,
+    pub failed: u64,
+    pub guard_violations: u64,
+    pub first_violation: Option<String>,
+    pub fail_backtrace: Option<String>,
+}
+
+thread_local! {
+    static HEAP_CTL: Cell<HeapCtl> = const { Cell::new(HeapCtl::OFF) };
+    static HEAP_STATS: RefCell<HeapStats> = RefCell::new(HeapStats::default());
+}
+
+/// Arm (or, with `HeapCtl::OFF`, disarm) the heap hooks of this thread and
+/// reset the counters.
+pub fn set_heap_ctl(ctl: HeapCtl) {
+    HEAP_CTL.set(ctl);
+    HEAP_STATS.with(|s| *s.borrow_mut() = HeapStats::default());
+}
+
+/// Change the control block without resetting the counters.
+pub fn update_heap_ctl(ctl: HeapCtl) {
+    HEAP_CTL.set(ctl);
+}
+
+pub fn heap_ctl() -> HeapCtl {
+    HEAP_CTL.get()
+}
+
+pub fn heap_stats() -> HeapStats {
+    HEAP_STATS.with(|s| s.borrow().clone())
+}
+
+/// Count one growth attempt; `true` means the hook must report failure.
+pub(crate) fn grow_attempt_should_fail() -> bool {
+    let ctl = HEAP_CTL.get();
+
+    HEAP_STATS.with(|s| {
+        let mut s = s.borrow_mut();
+        s.attempts += 1;
+
+        let k = s.attempts;
+        let fail = ctl.fail_at != 0 && k >= ctl.fail_at && k - ctl.fail_at < ctl.fail_len;
+
+        if fail {
+            s.failed += 1;
+
+            if ctl.backtrace && s.fail_backtrace.is_none() {
+                s.fail_backtrace =
+                    Some(std::backtrace::Backtrace::force_capture().to_string());
+            }
+        }
+
+        fail
+    })
+}
+
+pub(crate) fn record_guard_violation(what: String) {
+    HEAP_STATS.with(|s| {
+        let mut s = s.borrow_mut();
+        s.guard_violations += 1;
+
+        if s.first_violation.is_none() {
+            s.first_violation = Some(what);
+        }
+    })
+}
+
+/// Move every heap of `machine` into a managed, guarded allocation. With
+/// `tight`, the logical capacity becomes the current length, so that the next
+/// allocation is a growth attempt.
+pub fn adopt_heaps(machine: &mut Machine, guard_bytes: usize, tight: bool) {
+    let st = &mut machine.machine_st;
+
+    st.heap.verif_adopt(guard_bytes, tight);
+    st.lifted_heap.verif_adopt(guard_bytes, tight);
+    st.ball.stub.verif_adopt(guard_bytes, tight);
+}
+
+/// Verify the canaries of every heap of `machine`; returns the number of
+/// heaps whose guard region was written to.
+pub fn check_guards(machine: &Machine) -> u64 {
+    let st = &machine.machine_st;
+    let mut bad = 0;
+
+    for (name, heap) in [
+        ("heap", &st.heap),
+        ("lifted_heap", &st.lifted_heap),
+        ("ball.stub", &st.ball.stub),
+    ] {
+        if let Some(off) = heap.verif_guard_violation() {
+            record_guard_violation(format!("{name}: byte {off} past capacity overwritten"));
+            bad += 1;
+        }
+    }
+
+    bad
+}
+
+/// Sizes of the machine's stores, as a probe of leftover state.
+#[derive(Debug, Clone, PartialEq, Eq)]
+pub struct Footprint {
+    pub heap_cells: usize,
+    pub lifted_heap_cells: usize,
+    pub ball_cells: usize,
+    pub trail_len: usize,
+    pub tr: usize,
+    pub b: usize,
+    pub e: usize,
+    pub block: usize,
+    pub scc_block: usize,
+    pub cont_pts: usize,
+    pub ball_stack: usize,
+}
+
+pub fn footprint(machine: &Machine) -> Footprint {
+    let st = &machine.machine_st;
+
+    Footprint {
+        heap_cells: st.heap.cell_len(),
+        lifted_heap_cells: st.lifted_heap.cell_len(),
+        ball_cells: st.ball.stub.cell_len(),
+        trail_len: st.trail.len(),
+        tr: st.tr,
+        b: st.b,
+        e: st.e,
+        block: st.block,
+        scc_block: st.scc_block,
+        cont_pts: st.cont_pts.len(),
+        ball_stack: st.ball_stack.len(),
+    }
+}
+
+/// Replace the machine's random number generator by one seeded with `seed`.
+pub fn set_machine_rng(machine: &mut Machine, seed: u64) {
+    use rand::SeedableRng;
+    machine.rng = rand::rngs::StdRng::seed_from_u64(seed);
+}
+
+// ---------------------------------------------------------------------------
+// A bare `Heap` for heap-level simulation.
+// ---------------------------------------------------------------------------
+
+/// Wrapper giving an external harness access to the crate-private heap
+/// operations.
+#[derive(Debug)]
+pub struct SimHeap(pub(crate) Heap);
+
+impl Default for SimHeap {
+    fn default() -> Self {
+        Self::new()
+    }
+}
+
+impl SimHeap {
+    pub fn new() -> Self {
+        SimHeap(Heap::new())
+    }
+
+    pub fn adopt(&mut self, guard_bytes: usize, tight: bool) {
+        self.0.verif_adopt(guard_bytes, tight)
+    }
+
+    pub fn guard_violation(&self) -> Option<usize> {
+        self.0.verif_guard_violation()
+    }
+
+    pub fn byte_len(&self) -> usize {
+        self.0.byte_len()
+    }
+
+    pub fn byte_cap(&self) -> usize {
+        self.0.verif_byte_cap()
+    }
+
+    pub fn cell_len(&self) -> usize {
+        self.0.cell_len()
+    }
+
+    pub fn bytes(&self) -> &[u8] {
+        use crate::machine::heap::SizedHeap;
+        self.0.as_slice()
+    }
+
+    pub fn cell_bits(&self, idx: usize) -> u64 {
+        u64::from_le_bytes(self.0[idx].into_bytes())
+    }
+
+    pub fn push_fixnum(&mut self, n: i32) -> Result<(), ()> {
+        use crate::parser::ast::Fixnum;
+        self.0
+            .push_cell(fixnum_as_cell!(Fixnum::build_with(n)))
+            .map_err(|_| ())
+    }
+
+    /// `reserve(n)` then write `m <= n` fixnum cells through the section writer.
+    pub fn reserve_and_write(&mut self, n: usize, m: usize, base: i32) -> Result<(), ()> {
+        use crate::parser::ast::Fixnum;
+        let mut writer = self.0.reserve(n).map_err(|_| ())?;
+
+        writer.write_with(|section| {
+            for i in 0..m.min(n) {
+                section.push_cell(fixnum_as_cell!(Fixnum::build_with(base.wrapping_add(i as i32))));
+            }
+        });
+
+        Ok(())
+    }
+
+    /// Returns the bits of the returned string cell.
+    pub fn allocate_pstr(&mut self, s: &str) -> Result<u64, ()> {
+        self.0
+            .allocate_pstr(s)
+            .map(|c| u64::from_le_bytes(c.into_bytes()))
+            .map_err(|_| ())
+    }
+
+    pub fn allocate_cstr(&mut self, s: &str) -> Result<u64, ()> {
+        self.0
+            .allocate_cstr(s)
+            .map(|c| u64::from_le_bytes(c.into_bytes()))
+            .map_err(|_| ())
+    }
+
+    /// Byte size `compute_pstr_size` predicts for `s`.
+    pub fn compute_pstr_size(s: &str) -> usize {
+        Heap::compute_pstr_size(s)
+    }
+
+    /// If the cell bits denote a partial-string location, its byte offset.
+    pub fn pstr_loc_of(bits: u64) -> Option<usize> {
+        let cell = HeapCellValue::from_bytes(bits.to_le_bytes());
+
+        if cell.get_tag() == HeapCellValueTag::PStrLoc {
+            Some(cell.get_value() as usize)
+        } else {
+            None
+        }
+    }
+
+    pub fn copy_pstr_within(&mut self, pstr_loc: usize) -> Result<usize, ()> {
+        self.0.copy_pstr_within(pstr_loc).map_err(|_| ())
+    }
+
+    pub fn copy_slice_to_end(&mut self, from: usize, to: usize) -> Result<(), ()> {
+        self.0.copy_slice_to_end(from..to).map_err(|_| ())
+    }
+
+    pub fn append(&mut self, other: &SimHeap) -> Result<(), ()> {
+        self.0.append(&other.0).map_err(|_| ())
+    }
+
+    pub fn truncate(&mut self, cell_offset: usize) {
+        self.0.truncate(cell_offset)
+    }
+
+    /// Write `error(resource_error(memory), [])` through `Heap::functor_writer`.
+    pub fn write_error_functor(&mut self) -> Result<(), ()> {
+        let stub = functor!(
+            atom!("error"),
+            [
+                functor((atom!("resource_error")), [atom_as_cell((atom!("memory")))]),
+                atom_as_cell((atom!("[]")))
+            ]
+        );
+
+        let mut writer = Heap::functor_writer(stub);
+        writer(&mut self.0).map(|_| ()).map_err(|_| ())
+    }
+
+    /// Text of the partial string segment stored at byte offset `loc` and the
+    /// cell index of its tail.
+    pub fn scan_str(&self, loc: usize) -> (String, usize) {
+        use crate::machine::heap::SizedHeap;
+        let scan = self.0.scan_slice_to_str(loc);
+        (scan.string.to_owned(), scan.tail_idx)
+    }
+}
+
+// ---------------------------------------------------------------------------
+// CharReader access.
+// ---------------------------------------------------------------------------
+
+/// Outcome of a character-level operation on [`SimCharReader`].
+#[derive(Debug, Clone, PartialEq, Eq)]
+pub enum CharOutcome {
+    Char(char),
+    /// End of input.
+    End,
+    /// Invalid UTF-8; the offending bytes as reported.
+    Bad(Vec<u8>),
+    /// Another I/O error (kind as text).
+    Io(String),
+}
+
+fn char_outcome(r: Option<std::io::Result<char>>) -> CharOutcome {
+    match r {
+        None => CharOutcome::End,
+        Some(Ok(c)) => CharOutcome::Char(c),
+        Some(Err(e)) => {
+            if e.kind() == std::io::ErrorKind::InvalidData {
+                match e.downcast::<BadUtf8Error>() {
+                    Ok(bad) => CharOutcome::Bad(bad.bytes),
+                    Err(e) => CharOutcome::Io(format!("{:?}", e.kind())),
+                }
+            } else {
+                CharOutcome::Io(format!("{:?}", e.kind()))
+            }
+        }
+    }
+}
+
+/// The crate's `CharReader` over an arbitrary byte source.
+pub struct SimCharReader(CharReader<Box<dyn Read>>);
+
+impl SimCharReader {
+    pub fn new(source: Box<dyn Read>) -> Self {
+        SimCharReader(CharReader::new(source))
+    }
+
+    pub fn peek_char(&mut self) -> CharOutcome {
+        char_outcome(self.0.peek_char())
+    }
+
+    pub fn read_char(&mut self) -> CharOutcome {
+        char_outcome(self.0.read_char())
+    }
+
+    pub fn put_back_char(&mut self, c: char) {
+        self.0.put_back_char(c)
+    }
+
+    pub fn consume(&mut self, n: usize) {
+        self.0.consume(n)
+    }
+
+    pub fn peek_byte(&mut self) -> Option<Result<u8, String>> {
+        self.0
+            .peek_byte()
+            .map(|r| r.map_err(|e| format!("{:?}", e.kind())))
+    }
+
+    pub fn read_bytes(&mut self, buf: &mut [u8]) -> Result<usize, String> {
+        self.0.read(buf).map_err(|e| format!("{:?}", e.kind()))
+    }
+
+    pub fn read_exact_bytes(&mut self, buf: &mut [u8]) -> Result<(), String> {
+        self.0
+            .read_exact(buf)
+            .map_err(|e| format!("{:?}", e.kind()))
+    }
+
+    pub fn rem_buf_len(&self) -> usize {
+        self.0.rem_buf_len()
+    }
+}
+
+// ---------------------------------------------------------------------------
+// Short reads from file input streams.
+// ---------------------------------------------------------------------------
+
+thread_local! {
+    static SHORT_READ: Cell<(u64, usize)> = const { Cell::new((0, 0)) };
+    static SHORT_READS_DONE: Cell<u64> = const { Cell::new(0) };
+}
+
+/// Arm short reads: a xorshift state (0 = off) and the largest chunk served.
+pub fn set_short_reads(state: u64, max_chunk: usize) {
+    SHORT_READ.set((state, max_chunk));
+    SHORT_READS_DONE.set(0);
+}
+
+pub fn short_reads_done() -> u64 {
+    SHORT_READS_DONE.get()
+}
+
+/// How many of the `len` requested bytes the file read may fill.
+#[inline]
+pub(crate) fn short_read_len(len: usize) -> usize {
+    let (mut x, max_chunk) = SHORT_READ.get();
+
+    if x == 0 || len <= 1 {
+        return len;
+    }
+
+    x ^= x << 13;
+    x ^= x >> 7;
+    x ^= x << 17;
+    SHORT_READ.set((x, max_chunk));
+
+    let bound = len.min(max_chunk.max(1));
+    let n = 1 + (x as usize) % bound;
+
+    if n < len {
+        SHORT_READS_DONE.set(SHORT_READS_DONE.get() + 1);
+    }
+
+    n
+}
+
+// ---------------------------------------------------------------------------
+// Atom table: yield points and access.
+// ---------------------------------------------------------------------------
+
+/// Yield sites in `AtomTable::build_with` and friends.
+pub mod site {
+    pub const BUILD_ENTER: u32 = 1;
+    pub const AFTER_LOOKUP: u32 = 2;
+    /// `aux` carries the address of the `update` mutex.
+    pub const BEFORE_LOCK: u32 = 3;
+    pub const AFTER_LOCK: u32 = 4;
+    pub const AFTER_RECHECK: u32 = 5;
+    pub const BEFORE_GROW: u32 = 6;
+    pub const AFTER_BLOCK_REPLACE: u32 = 7;
+    pub const AFTER_WRITE: u32 = 8;
+    pub const AFTER_TABLE_REPLACE: u32 = 9;
+    pub const AS_PTR: u32 = 10;
+    pub const TABLE_NEW: u32 = 11;
+}
+
+/// Scheduler callback: `(site, aux)`.
+pub type YieldFn = Box<dyn Fn(u32, usize)>;
+
+thread_local! {
+    static YIELD_FN: RefCell<Option<YieldFn>> = const { RefCell::new(None) };
+    static ATOM_INIT_SIZE: Cell<usize> = const { Cell::new(0) };
+}
+
+/// Install (or remove) the scheduler callback of this thread.
+pub fn set_yield_fn(f: Option<YieldFn>) {
+    YIELD_FN.with(|y| *y.borrow_mut() = f);
+}
+
+#[inline]
+pub(crate) fn yield_point(site: u32, aux: usize) {
+    YIELD_FN.with(|y| {
+        if let Ok(y) = y.try_borrow() {
+            if let Some(f) = y.as_ref() {
+                f(site, aux);
+            }
+        }
+    })
+}
+
+/// Whether the mutex whose address was passed as `aux` of
+/// [`site::BEFORE_LOCK`] could be taken right now.
+///
+/// # Safety
+///
+/// `aux` must come from a `BEFORE_LOCK` yield of a thread still parked there.
+pub unsafe fn update_lock_is_free(aux: usize) -> bool {
+    let m = unsafe { &*(aux as *const std::sync::Mutex<()>) };
+    m.try_lock().is_ok()
+}
+
+/// Initial byte size of an atom table block created by this thread (0 = default).
+pub fn set_atom_table_init_size(n: usize) {
+    ATOM_INIT_SIZE.set(n);
+}
+
+pub(crate) fn atom_table_init_size() -> Option<usize> {
+    match ATOM_INIT_SIZE.get() {
+        0 => None,
+        n => Some(n),
+    }
+}
+
+/// A handle keeping the global atom table alive.
+pub struct AtomTableHandle(std::sync::Arc<AtomTable>);
+
+impl AtomTableHandle {
+    /// `AtomTable::new()`: the existing global table or a fresh one.
+    pub fn acquire() -> Option<Self> {
+        AtomTable::new().ok().map(AtomTableHandle)
+    }
+
+    /// Intern `text`; the atom's raw index.
+    pub fn intern(&self, text: &str) -> u64 {
+        AtomTable::build_with(&self.0, text).index
+    }
+
+    /// Identity of the underlying table allocation.
+    pub fn table_addr(&self) -> usize {
+        std::sync::Arc::as_ptr(&self.0) as usize
+    }
+}
+
+/// Text of the atom with raw index `index`.
+pub fn atom_text(index: u64) -> String {
+    Atom::from(index).as_str().to_string()
+}
+
+/// Length in bytes of the atom with raw index `index`.
+pub fn atom_len(index: u64) -> usize {
+    Atom::from(index).len()
+}
